@@ -3912,26 +3912,31 @@ func _select(n *node) {
 	}
 
 	n.exec = func(f *frame) bltn {
+		// The case vector is built once per statement and shared by all goroutines
+		// executing it: fill and pass a copy.
+		cs := make([]reflect.SelectCase, len(cases))
+		copy(cs, cases)
+
 		f.mutex.RLock()
-		cases[nbClause] = f.done
+		cs[nbClause] = f.done
 		f.mutex.RUnlock()
 
-		for i := range cases[:nbClause] {
-			switch cases[i].Dir {
+		for i := range cs[:nbClause] {
+			switch cs[i].Dir {
 			case reflect.SelectRecv:
-				cases[i].Chan = chanValues[i](f)
+				cs[i].Chan = chanValues[i](f)
 			case reflect.SelectSend:
-				cases[i].Chan = chanValues[i](f)
-				cases[i].Send = assignedValues[i](f)
+				cs[i].Chan = chanValues[i](f)
+				cs[i].Send = assignedValues[i](f)
 			case reflect.SelectDefault:
 				// Keep zero values for comm clause
 			}
 		}
-		j, v, s := reflect.Select(cases)
+		j, v, s := reflect.Select(cs)
 		if j == nbClause {
 			return nil
 		}
-		if cases[j].Dir == reflect.SelectRecv && assignedValues[j] != nil {
+		if cs[j].Dir == reflect.SelectRecv && assignedValues[j] != nil {
 			assignedValues[j](f).Set(v)
 			if ok[j] != nil {
 				okValues[j](f).SetBool(s)
